@@ -3,6 +3,7 @@ package main
 import (
 	"bytes"
 	"fmt"
+	"strings"
 	"unicode/utf8"
 )
 
@@ -16,6 +17,10 @@ import (
 // fit the original: an invalid UTF-8 byte (becomes U+FFFD, +2 bytes), U+023A (lower case is 1 byte longer),
 // the Kelvin sign U+212A (lower case 2 bytes shorter), U+0250 (upper case is 1 byte longer).
 var caseRunes = []string{"\xff", "\u023a", "\u212a", "\u0250"}
+
+// longLineLengths: around the 4 KiB buffers of bufio.Reader / textproto and the 64 KiB token limit of
+// bufio.Scanner, plus 1 MiB.
+var longLineLengths = []int{4095, 4096, 4097, 65535, 65536, 65537, 1 << 20}
 
 var sigma = []byte{'{', '}', '[', ']', '"', ':', ',', '\n', ' ', '0', '-', '<', '=', '@', 0x00, 0xff}
 
@@ -50,15 +55,16 @@ type bounds struct {
 	nullify   int // text seeds up to this size: replace each value token / bracket group by null
 	caseIns   int // text seeds up to this size: insert each case rune at file start, line starts, around ':' '=' and at word boundaries
 	caseLine  int // text seeds up to this size: line i := case rune + first k bytes of line i, every k (lines <= 200 B)
+	longLine  int // text seeds up to this size: grow the last token of a line to 4095 ... 1 MiB bytes (first 4 and last 2 lines)
 	lineCut   int // text seeds up to this size: truncate line i at every column / drop its first k bytes (lines <= 200 B)
 	binFF     bool
 }
 
 func boundsFor(tier string) bounds {
 	if tier == "thorough" {
-		return bounds{truncAll: 64 << 10, lineOps: 64 << 10, sigmaAll: 32 << 10, sigmaLine: 64 << 10, byteOps: 16 << 10, nullify: 64 << 10, lineCut: 32 << 10, caseIns: 32 << 10, caseLine: 8 << 10, binFF: true}
+		return bounds{truncAll: 64 << 10, lineOps: 64 << 10, sigmaAll: 32 << 10, sigmaLine: 64 << 10, byteOps: 16 << 10, nullify: 64 << 10, lineCut: 32 << 10, caseIns: 32 << 10, caseLine: 8 << 10, longLine: 16 << 10, binFF: true}
 	}
-	return bounds{truncAll: 2 << 10, lineOps: 64 << 10, sigmaAll: 256, sigmaLine: 2 << 10, byteOps: 256, nullify: 2 << 10, lineCut: 8 << 10, caseIns: 2 << 10, caseLine: 2 << 10, binFF: false}
+	return bounds{truncAll: 2 << 10, lineOps: 64 << 10, sigmaAll: 256, sigmaLine: 2 << 10, byteOps: 256, nullify: 2 << 10, lineCut: 8 << 10, caseIns: 2 << 10, caseLine: 2 << 10, longLine: 2 << 10, binFF: false}
 }
 
 func isBinary(seed []byte) bool {
@@ -117,6 +123,12 @@ func (d mutDesc) String() string {
 		return fmt.Sprintf("insert %+q at offset %d", caseRunes[d.B], d.A)
 	case "case-line":
 		return fmt.Sprintf("line %d := %+q + its first %d bytes", d.A, caseRunes[d.C], d.B)
+	case "long-line":
+		v := "rest of the file kept"
+		if d.C == 1 {
+			v = "file ends there, no final newline"
+		}
+		return fmt.Sprintf("line %d grown to %d bytes (%s)", d.A, longLineLengths[d.B], v)
 	case "struct-field":
 		return fmt.Sprintf("header field #%d at offset %d := boundary value #%d (structure-aware)", d.A, d.C, d.B)
 	case "guided-set":
@@ -344,6 +356,54 @@ func enumerate(seed []byte, tier string, from int, anchors func() []string, fn f
 					return buf
 				}) {
 					return seq
+				}
+			}
+		}
+	}
+	// long line / long token: the last token of line i (what precedes its trailing quote/bracket/comma) is
+	// padded with 'A' until the line has the target length; the key prefix stays, so the parser still reaches it
+	if n > 0 && n <= b.longLine && !isBinary(seed) {
+		var lines []int
+		for i := 0; i < nl; i++ {
+			if i < 4 || i >= nl-2 {
+				lines = append(lines, i)
+			}
+		}
+		for _, i := range lines {
+			from, to := st[i], st[i+1]
+			if to > from && seed[to-1] == '\n' {
+				to--
+			}
+			if to > from && seed[to-1] == '\r' {
+				to--
+			}
+			ins := to // insertion point: before the trailing closers of the line
+			for ins > from && strings.IndexByte("\",;)]}'> \t", seed[ins-1]) >= 0 {
+				ins--
+			}
+			if ins == from {
+				ins = to
+			}
+			for li, L := range longLineLengths {
+				pad := L - (to - from)
+				if pad <= 0 {
+					continue
+				}
+				for variant := 0; variant < 2; variant++ {
+					if !emit(mutDesc{Op: "long-line", A: i, B: li, C: variant}, func() []byte {
+						out := make([]byte, 0, n+pad)
+						out = append(out, seed[:ins]...)
+						for k := 0; k < pad; k++ {
+							out = append(out, 'A')
+						}
+						out = append(out, seed[ins:to]...)
+						if variant == 0 {
+							out = append(out, seed[to:]...)
+						}
+						return out
+					}) {
+						return seq
+					}
 				}
 			}
 		}
